@@ -942,7 +942,7 @@ class Interp:
                         if len(seq) <= 6 and not T.has_opaque(c) and self.user_decide is not None:
                             if not self.decide(c, e):
                                 continue
-                        elif lazy and kind == "list" and len(seq) <= 8 and not T.has_opaque(c):
+                        elif kind == "list" and len(seq) <= 8 and not T.has_opaque(c) and (lazy or len(e.generators) == 1):
                             guarded.append((c, self.eval(e.elt)))
                             continue
                         else:
